@@ -6,9 +6,9 @@ From IpfsLog Require Import Model.System Proofs.OmapProofs Proofs.SortProofs Pro
 Import ListNotations.
 Open Scope Z_scope.
 
-Definition ptbound (s : sys) : Prop :=
-  (forall e, In e (s_univ s) -> 0 < e_time e <= Z.of_nat (length (s_univ s))) /\
-  (forall r l, nth_error (s_logs s) r = Some l -> 0 <= l_time l <= Z.of_nat (length (s_univ s))).
+Definition ptbound (B : Z) (s : sys) : Prop :=
+  (forall e, In e (s_univ s) -> 0 < e_time e <= (B + Z.of_nat (length (s_univ s)))) /\
+  (forall r l, nth_error (s_logs s) r = Some l -> 0 <= l_time l <= (B + Z.of_nat (length (s_univ s)))).
 
 Lemma pheads_in_U U l e : pinv U l -> In e (oslice (l_heads l)) -> In e U.
 Proof.
@@ -21,27 +21,27 @@ Lemma pmax_time_heads_bound U l d b : pinv U l -> (forall e, In e U -> e_time e 
 Proof. intros I HU Hd. apply max_time_bound; auto. intros e He. apply HU. eapply pheads_in_U; eauto. Qed.
 
 
-Theorem ptbound_step s o : psinv s -> pwf_step s o -> ptbound s -> ptbound (fst (step s o)).
+Theorem ptbound_step B s o : 0 <= B -> seed_of o <= B -> psinv s -> pwf_step s o -> ptbound B s -> ptbound B (fst (step s o)).
 Proof.
-  intros SI W [TU TL]. pose proof (psinv_step s o SI W) as SI'. destruct SI as [UO IL].
-  destruct o as [id key sf deny|r payload pc h|r src size|r key|r mh|r io|r payload pc h|r]; cbn [step].
+  intros HB HS SI W [TU TL]. pose proof (psinv_step s o SI W) as SI'. destruct SI as [UO IL].
+  destruct o as [id key sf deny t0|r payload pc h|r src size|r key|r mh|r io|r payload pc h|r]; cbn [step].
   - split; [exact TU|]. cbn [fst s_logs s_univ]. intros r l H.
     destruct (Nat.lt_ge_cases r (length (s_logs s))) as [Hl|Hl].
     + rewrite nth_error_app1 in H by assumption. eauto.
     + rewrite nth_error_app2 in H by assumption. destruct (r - length (s_logs s))%nat as [|n]; cbn in H.
-      * injection H as <-. cbn. lia.
+      * injection H as <-. cbn in *. lia.
       * destruct n; discriminate.
   - destruct (nth_error (s_logs s) r) as [l|] eqn:L; [|split; auto].
     unfold append. destruct (append_entry l payload pc h) as [e|] eqn:AE.
-    + assert (Ht : 0 < e_time e <= Z.of_nat (length (s_univ s)) + 1).
+    + assert (Ht : 0 < e_time e <= (B + Z.of_nat (length (s_univ s))) + 1).
       { rewrite (ae_time l payload pc h e AE). destruct (TL r l L).
-        assert (max_time (oslice (sorted_heads l)) 0 <= Z.of_nat (length (s_univ s))).
+        assert (max_time (oslice (sorted_heads l)) 0 <= (B + Z.of_nat (length (s_univ s)))).
         { apply max_time_bound; [lia|]. intros x Hx. apply In_oslice in Hx. destruct Hx as [k Hx].
           apply sorted_heads_In in Hx; [|apply (pi_heads_nodup _ _ (IL r l L))|apply (pheads_well_keyed _ _ (IL r l L))].
           apply TU. eapply pheads_in_U; [apply (IL r l L)|]. apply In_oslice. eauto. }
         pose proof (max_time_ge (oslice (sorted_heads l)) 0). lia. }
       assert (X : forall l', l_time l' = e_time e \/ l_time l' = l_time l ->
-                ptbound (mkSys (set_nth r l' (s_logs s)) (s_univ s ++ [e]) (add_block (s_store s) h (e_next e ++ e_refs e)))).
+                ptbound B (mkSys (set_nth r l' (s_logs s)) (s_univ s ++ [e]) (add_block (s_store s) h (e_next e ++ e_refs e)))).
       { intros l' Hl'. split; cbn [s_univ s_logs]; rewrite app_length; cbn [length].
         - intros x Hx. rewrite in_app_iff in Hx. cbn [In] in Hx. destruct Hx as [Hx|[<-|[]]]; [specialize (TU x Hx)|]; lia.
         - intros r' l'' H. rewrite nth_error_set_nth, L in H. destruct (Nat.eqb r r').
@@ -57,14 +57,14 @@ Proof.
     destruct (Nat.eqb r r'); [|eauto]. injection H as <-.
     pose proof (pinv_join (s_univ s) l o (Nat.eqb r src) size l' out UO (IL r l L) (IL src o O) J) as Il'.
     destruct (TL r l L). destruct (join_time _ _ _ _ _ _ J) as [->| ->]; [lia|].
-    pose proof (pmax_time_heads_bound (s_univ s) l' 0 (Z.of_nat (length (s_univ s))) Il'
+    pose proof (pmax_time_heads_bound (s_univ s) l' 0 ((B + Z.of_nat (length (s_univ s)))) Il'
                   (fun e He => proj2 (TU e He)) ltac:(lia)).
     pose proof (max_time_ge (oslice (l_heads l')) 0). lia.
   - destruct (nth_error (s_logs s) r) as [l|] eqn:L; [|split; auto]. cbn [fst].
     split; [exact TU|]. cbn [s_logs s_univ]. intros r' l' H. rewrite nth_error_set_nth, L in H.
     destruct (Nat.eqb r r'); [|eauto]. injection H as <-. cbn [set_identity l_time].
     destruct (TL r l L).
-    pose proof (pmax_time_heads_bound (s_univ s) l (l_time l) (Z.of_nat (length (s_univ s))) (IL r l L)
+    pose proof (pmax_time_heads_bound (s_univ s) l (l_time l) ((B + Z.of_nat (length (s_univ s)))) (IL r l L)
                   (fun e He => proj2 (TU e He)) ltac:(lia)).
     pose proof (max_time_ge (oslice (l_heads l)) (l_time l)). lia.
   - destruct (nth_error (s_logs s) r) as [l|] eqn:L; [|split; auto].
@@ -73,9 +73,9 @@ Proof.
     destruct (iterator l io) as [[es c]| |]; split; auto.
   - destruct (nth_error (s_logs s) r) as [l|] eqn:L; [|split; auto].
     destruct (append_entry l payload pc h) as [e|] eqn:AE; [|split; auto].
-    assert (Ht : 0 < e_time e <= Z.of_nat (length (s_univ s)) + 1).
+    assert (Ht : 0 < e_time e <= (B + Z.of_nat (length (s_univ s))) + 1).
     { rewrite (ae_time l payload pc h e AE). destruct (TL r l L).
-      assert (max_time (oslice (sorted_heads l)) 0 <= Z.of_nat (length (s_univ s))).
+      assert (max_time (oslice (sorted_heads l)) 0 <= (B + Z.of_nat (length (s_univ s)))).
       { apply max_time_bound; [lia|]. intros x Hx. apply In_oslice in Hx. destruct Hx as [k Hx].
         apply sorted_heads_In in Hx; [|apply (pi_heads_nodup _ _ (IL r l L))|apply (pheads_well_keyed _ _ (IL r l L))].
         apply TU. eapply pheads_in_U; [apply (IL r l L)|]. apply In_oslice. eauto. }
@@ -88,15 +88,17 @@ Proof.
   - split; auto.
 Qed.
 
-Theorem ptbound_run_from ops : forall s, psinv s -> pwf_from s ops -> ptbound s -> ptbound (run_from s ops).
+Theorem ptbound_run_from B ops : 0 <= B -> Forall (fun o => seed_of o <= B) ops ->
+  forall s, psinv s -> pwf_from s ops -> ptbound B s -> ptbound B (run_from s ops).
 Proof.
-  induction ops as [|o ops IH]; intros s SI W T; cbn [run_from fold_left]; [exact T|].
-  destruct W as [W1 W2]. apply IH; [now apply psinv_step|exact W2|now apply ptbound_step].
+  intros HB HS. induction ops as [|o ops IH]; intros s SI W T; cbn [run_from fold_left]; [exact T|].
+  inversion HS; subst.
+  destruct W as [W1 W2]. apply IH; [assumption|now apply psinv_step|exact W2|now apply ptbound_step].
 Qed.
 
-Theorem ptbound_run ops : pwf ops -> ptbound (run ops).
+Theorem ptbound_run ops : pwf ops -> ptbound (max_seed ops) (run ops).
 Proof.
-  intros W. apply ptbound_run_from; [apply psinv_empty|exact W|].
+  intros W. apply ptbound_run_from; [apply max_seed_nonneg|apply max_seed_bounds|apply psinv_empty|exact W|].
   split; [intros e []|]. intros [|r] l H; discriminate.
 Qed.
 
@@ -105,11 +107,11 @@ Qed.
 
 (* hence: in any history of fewer than 2^63 operations all times are in the int64 range *)
 Theorem ptimes_in_range ops r l :
-  pwf ops -> Z.of_nat (length ops) < two63 -> nth_error (s_logs (run ops)) r = Some l ->
+  pwf ops -> hist_bound ops < two63 -> nth_error (s_logs (run ops)) r = Some l ->
   forall e, In e (ents l) -> int64_range (e_time e).
 Proof.
   intros W Hlen L e He. destruct (ptbound_run ops W) as [TU _]. destruct (psinv_run ops W) as [_ IL].
   destruct (pinv_entry _ _ _ (IL r l L) He) as [_ HU]. specialize (TU e HU).
   pose proof (univ_length_run_from ops empty_sys). unfold run in *. cbn [empty_sys s_univ length] in H.
-  unfold int64_range, two63 in *. lia.
+  pose proof (max_seed_nonneg ops). unfold hist_bound, int64_range, two63 in *. lia.
 Qed.
